@@ -20,7 +20,9 @@ EXTENDS Integers, Sequences, FiniteSets, TLC, VerifIO
 
 CONSTANTS Span,        \* start, end \in -Span..Span   (a .cfg file cannot spell a negative number)
           KMax,        \* step \in -KMax..KMax \ {0}
-          Forms,       \* operand spellings: "lit" literals, "var" identifiers, "call" call expressions
+          Forms,       \* operand spellings: "lit" decimal literals, "var" identifiers, "call" call expressions,
+                       \*   and the other literal spellings "hex" 0x2, "oct" 0o2, "bin" 0b10, "us" 0_2 (digit separator);
+                       \*   a spelling never changes the value, so it never changes the sequence
           Ctxs         \* syntactic contexts (see CtxKind)
 
 \* which context machine runs a syntactic context, and whether it has an `if` filter
